@@ -118,16 +118,21 @@ func c01Specs(tier string) []*XSpec {
 		for _, c := range []*store.VerifCfg{cfgK1(), cfgK16()} {
 			specs = append(specs, &XSpec{Property: "C01", Name: c.Name + "-d5", Cfg: c, Alphabet: quickAlpha, Depth: 5, Keys: keys, Exec: c01Exec})
 		}
-		// a 250-byte key (the longest valid one) under the real hash, together with a short key, big and empty values
-		long := strings.Repeat("K", 250)
-		lk := []string{long, "z"}
-		la := perKey(lk, Op{K: "set", V: "s"}, Op{K: "set", V: "e"}, Op{K: "set", V: "c10241"}, Op{K: "del"}, Op{K: "incr"})
-		la = append(la, Op{K: "flush"}, Op{K: "bg"})
-		cl := cfgK1()
-		cl.Name = "b1-h3-longkey-realhash"
-		cl.Hash = nil
-		cl.DataFileMax = 12 << 10
-		specs = append(specs, &XSpec{Property: "C01", Name: cl.Name, Cfg: cl, Alphabet: la, Depth: 4, Keys: lk, Exec: c01Exec})
+
 	}
+	lkDepth := 3
+	if tier != "quick" {
+		lkDepth = 4
+	}
+	// a 250-byte key (the longest valid one) under the real hash, together with a short key, big and empty values
+	long := strings.Repeat("K", 250)
+	lk := []string{long, "z"}
+	la := perKey(lk, Op{K: "set", V: "s"}, Op{K: "set", V: "e"}, Op{K: "set", V: "c10241"}, Op{K: "del"}, Op{K: "incr"})
+	la = append(la, Op{K: "flush"}, Op{K: "bg"})
+	cl := cfgK1()
+	cl.Name = "b1-h3-longkey-realhash"
+	cl.Hash = nil
+	cl.DataFileMax = 12 << 10
+	specs = append(specs, &XSpec{Property: "C01", Name: cl.Name, Cfg: cl, Alphabet: la, Depth: lkDepth, Keys: lk, Exec: c01Exec})
 	return specs
 }
